@@ -25,6 +25,7 @@ import (
 	"regexp"
 	"sort"
 	"strconv"
+	"strings"
 	"testing"
 	"testing/synctest"
 	"time"
@@ -93,6 +94,152 @@ type Op struct {
 	Mid  []Op   `json:"mid,omitempty"`
 	Adv  bool   `json:"adv,omitempty"`
 	Cur0 uint64 `json:"cur0,omitempty"`
+	// head: the event carries duty dependent roots of its own (identified by numbers, 0 = the zero
+	// root) and, for the epochs that may be refreshed, what the beacon node and the account manager
+	// answer about them from now on.  A head without Rooted carries the roots of a chain that did not
+	// reorganise (see rstate.quiet).
+	Rooted   bool   `json:"rooted,omitempty"`
+	PrevRoot uint64 `json:"prev_root,omitempty"`
+	CurRoot  uint64 `json:"cur_root,omitempty"`
+	Views    []View `json:"views,omitempty"`
+	// set by desugar only
+	Parked  bool     `json:"-"` // sub: the re-subscription of a refresh; its duties request is parked in the mock
+	Expect  []uint64 `json:"-"` // head: the epochs whose re-subscription the driver expects to find parked
+	Install []View   `json:"-"` // head: the views to answer from
+}
+
+// View is what the rest of the world answers about one epoch after a rooted head event.
+type View struct {
+	Epoch      uint64   `json:"epoch"`
+	Unprepared bool     `json:"unprepared,omitempty"` // "Prepare for epoch <Epoch>" is still scheduled
+	AcctFail   bool     `json:"acct_fail,omitempty"`  // ValidatingAccountsForEpoch fails
+	NoAccounts bool     `json:"no_accounts,omitempty"`
+	DutiesFail bool     `json:"duties_fail,omitempty"`
+	SignFail   []uint64 `json:"sign_fail,omitempty"`
+	Duties     []Duty   `json:"duties,omitempty"`
+	Mid        []Op     `json:"mid,omitempty"` // att | head (plain): what completes while the re-subscription waits for the duties
+}
+
+// rstate is the driver's own copy of what checkEventForReorg remembers (a function of the input).
+type rstate struct{ epoch, prev, cur uint64 }
+
+// quiet: the roots a chain that did not reorganise sends next.
+func (rs rstate) quiet(hepoch uint64) rstate {
+	if rs.epoch < hepoch {
+		return rstate{hepoch, rs.cur, rs.cur}
+	}
+	return rstate{hepoch, rs.prev, rs.cur}
+}
+
+func (rs rstate) decide(hepoch, prev, cur uint64) (bool, bool) {
+	switch {
+	case rs.epoch == 0:
+		return false, false
+	case rs.epoch < hepoch:
+		return rs.prev != 0 && rs.cur != prev, false
+	default:
+		return rs.prev != 0 && rs.prev != prev, rs.cur != 0 && rs.cur != cur
+	}
+}
+
+func trackLinear(spe uint64, rs rstate, ops []Op) rstate {
+	for _, o := range linear(ops) {
+		if o.Kind == "head" && o.HSlot == o.Cur {
+			rs = rs.quiet(o.HSlot / spe)
+		}
+	}
+	return rs
+}
+
+// desugar is the driver's plan of a history: a rooted head event becomes the head event itself
+// followed by the re-subscriptions the driver expects it to launch (each with what completes while
+// it waits for the duties as its Mid).  The check's own expansion is Model.C14_Reorg.expand, which
+// works from the printed events, not from this.
+func desugar(in Input) ([]Op, map[string]bool) {
+	tags := map[string]bool{}
+	var out []Op
+	rs := rstate{}
+	for _, op := range in.Ops {
+		if op.Kind != "head" || !op.Rooted {
+			out = append(out, op)
+			rs = trackLinear(in.SPE, rs, []Op{op})
+			continue
+		}
+		h := op
+		h.Install, h.Views = op.Views, nil
+		tags["rooted-head"] = true
+		if op.HSlot != op.Cur {
+			tags["rooted-head-not-current"] = true
+			out = append(out, h)
+			continue
+		}
+		hepoch := op.HSlot / in.SPE
+		p, c := rs.decide(hepoch, op.PrevRoot, op.CurRoot)
+		switch {
+		case rs.epoch == 0:
+			tags["rooted-head-nothing-recorded"] = true
+		case rs.epoch < hepoch:
+			tags["rooted-head-epoch-transition"] = true
+		}
+		if (rs.prev == 0 && op.PrevRoot != 0) || (rs.cur == 0 && op.CurRoot != 0) {
+			tags["rooted-head-after-zero-root"] = true
+		}
+		switch {
+		case p && c:
+			tags["reorg-both-roots-changed"] = true
+		case p:
+			tags["reorg-previous-root-changed"] = true
+		case c:
+			tags["reorg-current-root-changed"] = true
+		default:
+			tags["rooted-head-no-reorg"] = true
+		}
+		rs = rstate{hepoch, op.PrevRoot, op.CurRoot}
+		var eps []uint64
+		if p {
+			eps = append(eps, op.Cur/in.SPE)
+		}
+		if c {
+			eps = append(eps, op.Cur/in.SPE+1)
+		}
+		var subs []Op
+		for _, ep := range eps {
+			var v *View
+			for i := range op.Views {
+				if op.Views[i].Epoch == ep {
+					v = &op.Views[i]
+					break
+				}
+			}
+			switch {
+			case v == nil:
+				tags["refresh-without-answer"] = true
+				continue
+			case v.Unprepared:
+				tags["refresh-of-unprepared-epoch"] = true
+				continue
+			case v.AcctFail:
+				tags["refresh-accounts-fail"] = true
+				continue
+			case v.NoAccounts:
+				tags["refresh-no-accounts"] = true
+				continue
+			}
+			tags["refresh-resubscribes"] = true
+			for _, m := range linear(v.Mid) {
+				if m.Kind == "att" {
+					tags["attest-while-refresh-in-flight"] = true
+				}
+			}
+			subs = append(subs, Op{Kind: "sub", Cur: op.Cur, Epoch: ep, DutiesFail: v.DutiesFail, SignFail: v.SignFail,
+				Duties: v.Duties, Mid: v.Mid, Parked: true})
+			h.Expect = append(h.Expect, ep)
+			rs = trackLinear(in.SPE, rs, v.Mid)
+		}
+		out = append(out, h)
+		out = append(out, subs...)
+	}
+	return out, tags
 }
 
 // linear is the controller's history in the order in which the operations take effect: what
@@ -166,6 +313,16 @@ func blockRoot(id uint64) phase0.Root {
 	return r
 }
 
+// depRoot is the duty dependent root with the given number; 0 is the zero root.
+func depRoot(id uint64) phase0.Root {
+	var r phase0.Root
+	if id != 0 {
+		binary.BigEndian.PutUint64(r[24:32], id)
+		r[0] = 0xDD
+	}
+	return r
+}
+
 func attData(a Att) *phase0.AttestationData {
 	return &phase0.AttestationData{
 		Slot:            phase0.Slot(a.Slot),
@@ -221,6 +378,28 @@ type env struct {
 	// during, when set, is run once by the next outside call that takes time (Attest, AttesterDuties)
 	// before it answers: the rest of the world goes on while the controller waits.
 	during func()
+	// the reorganisation path: while views is set, the answers about an epoch come from its view, and
+	// the attester duties requests of Subscribe are parked until the driver releases them
+	views      map[uint64]*View
+	parked     []parkedReq
+	failParked bool
+}
+
+type parkedReq struct {
+	epoch uint64
+	ch    chan struct{}
+}
+
+// release lets the first parked duties request of the epoch go on; false if there is none.
+func (e *env) release(epoch uint64) bool {
+	for i, p := range e.parked {
+		if p.epoch == epoch {
+			e.parked = append(e.parked[:i:i], e.parked[i+1:]...)
+			close(p.ch)
+			return true
+		}
+	}
+	return false
 }
 
 func (e *env) meanwhile() {
@@ -231,8 +410,20 @@ func (e *env) meanwhile() {
 }
 
 // attester duties provider
-func (e *env) AttesterDuties(_ context.Context, _ *api.AttesterDutiesOpts) (*api.Response[[]*apiv1.AttesterDuty], error) {
+func (e *env) AttesterDuties(ctx context.Context, opts *api.AttesterDutiesOpts) (*api.Response[[]*apiv1.AttesterDuty], error) {
 	e.meanwhile()
+	if e.views != nil {
+		ch := make(chan struct{})
+		e.parked = append(e.parked, parkedReq{uint64(opts.Epoch), ch})
+		select {
+		case <-ch:
+		case <-ctx.Done():
+			return nil, ctx.Err()
+		}
+		if e.failParked {
+			return nil, errors.New("the beacon node went away")
+		}
+	}
 	if e.dutiesFail {
 		return nil, errors.New("scripted duties failure")
 	}
@@ -317,8 +508,54 @@ func (e *env) Attest(_ context.Context, _ *attester.Duty) ([]*phase0.Attestation
 // accounts provider of the controller (scripted failures)
 type ctrlAccounts struct{ e *env }
 
-func (c ctrlAccounts) ValidatingAccountsForEpoch(_ context.Context, _ phase0.Epoch) (map[phase0.ValidatorIndex]e2wtypes.Account, error) {
-	return nil, errors.New("not used")
+func (c ctrlAccounts) ValidatingAccountsForEpoch(_ context.Context, epoch phase0.Epoch) (map[phase0.ValidatorIndex]e2wtypes.Account, error) {
+	v := c.e.views[uint64(epoch)]
+	if v == nil || v.AcctFail {
+		return nil, errors.New("scripted accounts failure")
+	}
+	accounts := map[phase0.ValidatorIndex]e2wtypes.Account{}
+	if v.NoAccounts {
+		return accounts, nil
+	}
+	for _, d := range v.Duties {
+		accounts[phase0.ValidatorIndex(d.Val)] = newAccount(d.Val)
+	}
+	if len(accounts) == 0 {
+		accounts[phase0.ValidatorIndex(sentinel)] = newAccount(sentinel)
+	}
+	return accounts, nil
+}
+
+// the controller's own duties providers (scheduleAttestations / scheduleProposals of a refresh)
+type ctrlDuties struct{ e *env }
+
+func (c ctrlDuties) AttesterDuties(ctx context.Context, opts *api.AttesterDutiesOpts) (*api.Response[[]*apiv1.AttesterDuty], error) {
+	if err := ctx.Err(); err != nil {
+		return nil, err
+	}
+	v := c.e.views[uint64(opts.Epoch)]
+	if v == nil || v.DutiesFail {
+		return nil, errors.New("scripted duties failure")
+	}
+	return &api.Response[[]*apiv1.AttesterDuty]{Data: apiDuties(v.Duties), Metadata: map[string]any{}}, nil
+}
+func (c ctrlDuties) ProposerDuties(_ context.Context, _ *api.ProposerDutiesOpts) (*api.Response[[]*apiv1.ProposerDuty], error) {
+	return nil, errors.New("no proposer duties in this harness")
+}
+
+func apiDuties(ds []Duty) []*apiv1.AttesterDuty {
+	out := make([]*apiv1.AttesterDuty, 0, len(ds))
+	for _, d := range ds {
+		acc := newAccount(d.Val)
+		var pk phase0.BLSPubKey
+		copy(pk[:], acc.pk.b[:])
+		out = append(out, &apiv1.AttesterDuty{
+			PubKey: pk, Slot: phase0.Slot(d.Slot), ValidatorIndex: phase0.ValidatorIndex(d.Val),
+			CommitteeIndex: phase0.CommitteeIndex(d.Comm), CommitteeLength: d.Len, CommitteesAtSlot: d.Cas,
+			ValidatorCommitteeIndex: d.Pos,
+		})
+	}
+	return out
 }
 func (c ctrlAccounts) ValidatingAccountsForEpochByIndex(_ context.Context, _ phase0.Epoch, indices []phase0.ValidatorIndex) (map[phase0.ValidatorIndex]e2wtypes.Account, error) {
 	res := map[phase0.ValidatorIndex]e2wtypes.Account{}
@@ -421,6 +658,14 @@ func runCase(t *testing.T, in Input) (obs []Obs) {
 		level = zerolog.TraceLevel
 	}
 	e := &env{spe: in.SPE, target: in.Target}
+	defer func() {
+		// whatever happens, no duties request stays parked when the bubble ends
+		e.failParked = true
+		for _, p := range e.parked {
+			close(p.ch)
+		}
+		e.parked = nil
+	}()
 	ct := mocks.NewChainTime(in.SPE)
 	sched := mocks.NewRecScheduler()
 	realAgg, err := standardaggregator.New(ctx,
@@ -462,6 +707,8 @@ func runCase(t *testing.T, in Input) (obs []Obs) {
 		Scheduler:                    sched,
 		Attester:                     e,
 		ValidatingAccountsProvider:   ctrlAccounts{e},
+		AttesterDutiesProvider:       ctrlDuties{e},
+		ProposerDutiesProvider:       ctrlDuties{e},
 		AttestationAggregator:        agg,
 		BeaconCommitteeSubscriber:    subscriber,
 		SlotDuration:                 slotMs * time.Millisecond,
@@ -469,11 +716,21 @@ func runCase(t *testing.T, in Input) (obs []Obs) {
 		EpochsPerSyncCommitteePeriod: 256,
 		AttestationAggregationDelay:  time.Duration(in.DelayMs) * time.Millisecond,
 	})
+	// the driver's plan: rooted head events followed by the re-subscriptions they are expected to launch
+	tops, _ := desugar(in)
 	// the epochs whose information a head event may hold or drop: every epoch a subscribe names
 	var subEpochs []uint64
 	{
 		seen := map[uint64]bool{}
-		for _, op := range linear(in.Ops) {
+		for _, op := range tops {
+			for _, v := range op.Install {
+				if !seen[v.Epoch] {
+					seen[v.Epoch] = true
+					subEpochs = append(subEpochs, v.Epoch)
+				}
+			}
+		}
+		for _, op := range linear(tops) {
 			if op.Kind == "sub" && !seen[op.Epoch] {
 				seen[op.Epoch] = true
 				subEpochs = append(subEpochs, op.Epoch)
@@ -484,7 +741,7 @@ func runCase(t *testing.T, in Input) (obs []Obs) {
 
 	// every attestation data root of the case -> the id of its attestation
 	roots := map[phase0.Root]uint64{}
-	for _, op := range linear(in.Ops) {
+	for _, op := range linear(tops) {
 		for _, a := range op.Atts {
 			r, err := attData(a).HashTreeRoot()
 			if err != nil {
@@ -495,6 +752,27 @@ func runCase(t *testing.T, in Input) (obs []Obs) {
 	}
 
 	var runOp func(op Op)
+	rs := rstate{}       // what a chain without reorganisations would send next (see rstate.quiet)
+	var markers []string // "Prepare for epoch" jobs put into the scheduler for unprepared views
+	// flush ends the period in which the views of a rooted head event answer: duties requests still
+	// parked (re-subscriptions the driver did not expect) fail, the markers go.
+	flush := func() {
+		if e.views == nil {
+			return
+		}
+		e.failParked = true
+		for _, p := range e.parked {
+			close(p.ch)
+		}
+		e.parked = nil
+		synctest.Wait()
+		e.failParked = false
+		e.views = nil
+		for _, name := range markers {
+			_ = sched.CancelJob(ctx, name)
+		}
+		markers = nil
+	}
 	// waitFor arranges what happens while [op]'s outside call is in flight: the operations of op.Mid
 	// run to completion (their observations come first, as in [linear]), the clock reaches op.Cur, and
 	// the answers scripted for [op] itself are put back.
@@ -527,18 +805,10 @@ func runCase(t *testing.T, in Input) (obs []Obs) {
 				accounts[phase0.ValidatorIndex(sentinel)] = newAccount(sentinel)
 			}
 			var calls [][]*apiv1.BeaconCommitteeSubscription
-			waitFor(op, func() {
-				e.duties = nil
+			script := func() {
+				e.duties = apiDuties(op.Duties)
 				e.sigs = map[[2]uint64]uint64{}
 				for _, d := range op.Duties {
-					acc := newAccount(d.Val)
-					var pk phase0.BLSPubKey
-					copy(pk[:], acc.pk.b[:])
-					e.duties = append(e.duties, &apiv1.AttesterDuty{
-						PubKey: pk, Slot: phase0.Slot(d.Slot), ValidatorIndex: phase0.ValidatorIndex(d.Val),
-						CommitteeIndex: phase0.CommitteeIndex(d.Comm), CommitteeLength: d.Len, CommitteesAtSlot: d.Cas,
-						ValidatorCommitteeIndex: d.Pos,
-					})
 					e.sigs[[2]uint64{d.Val, d.Slot}] = d.Sig
 				}
 				e.dutiesFail = op.DutiesFail
@@ -547,14 +817,35 @@ func runCase(t *testing.T, in Input) (obs []Obs) {
 					e.signFail[s] = true
 				}
 				e.subCalls = nil
-			})
-			if op.NoAccounts {
-				// Subscribe asks nobody: nothing to wait for, the other operations simply come first
-				e.meanwhile()
 			}
-			ctrl.SubscribeToBeaconCommitteesC14(ctx, phase0.Epoch(op.Epoch), accounts)
-			synctest.Wait() // the submission goroutine has finished
-			e.meanwhile()   // (only if Subscribe never asked for the duties)
+			if op.Parked {
+				// The re-subscription of a refresh: refreshAttesterDutiesForEpoch launched it when the head
+				// event was handled and its duties request has been waiting in the mock since.  What
+				// completes meanwhile comes first; then the node answers.  If the controller never asked
+				// for this epoch there is nothing to release and nothing is submitted or stored.
+				for _, m := range op.Mid {
+					runOp(m)
+				}
+				ct.SetSlot(op.Cur)
+				script()
+				if !e.release(op.Epoch) {
+					// not asked yet: give a refresh that takes its time a few (fake) seconds before
+					// concluding that the epoch is not being re-subscribed
+					time.Sleep(3 * time.Second)
+					synctest.Wait()
+					e.release(op.Epoch)
+				}
+				synctest.Wait()
+			} else {
+				waitFor(op, script)
+				if op.NoAccounts {
+					// Subscribe asks nobody: nothing to wait for, the other operations simply come first
+					e.meanwhile()
+				}
+				ctrl.SubscribeToBeaconCommitteesC14(ctx, phase0.Epoch(op.Epoch), accounts)
+				synctest.Wait() // the submission goroutine has finished
+				e.meanwhile()   // (only if Subscribe never asked for the duties)
+			}
 			calls, e.subCalls = e.subCalls, nil
 			o := Obs{Kind: "sub", Calls: [][]ObsSubscription{}}
 			for _, call := range calls {
@@ -603,6 +894,11 @@ func runCase(t *testing.T, in Input) (obs []Obs) {
 			e.meanwhile() // (only if Attest was never called)
 			o := Obs{Kind: "att", Jobs: []ObsJob{}}
 			for _, j := range sched.Snapshot() {
+				if strings.HasPrefix(j.Name, "Attestations for slot ") || strings.HasPrefix(j.Name, "Prepare for epoch ") {
+					// the attestation jobs a refresh re-creates and the driver's own marker of an
+					// epoch that is not prepared yet: not aggregation jobs
+					continue
+				}
 				x := ObsJob{Slot: sentinel, Comm: sentinel}
 				if m := jobNameRe.FindStringSubmatch(j.Name); m != nil {
 					x.Slot, _ = strconv.ParseUint(m[1], 10, 64)
@@ -631,13 +927,54 @@ func runCase(t *testing.T, in Input) (obs []Obs) {
 		case "head":
 			ct.SetSlot(op.Cur)
 			// the beacon node's "head" event, delivered as the events provider would: the real
-			// HandleHeadEvent (no reorganisation: the duty dependent roots never change; no fast
-			// track; no sync committee verification)
+			// HandleHeadEvent (no fast track; no sync committee verification).  A head that is not
+			// Rooted carries the duty dependent roots of a chain that did not reorganise.
+			q := rs.quiet(op.HSlot / in.SPE)
+			if op.Rooted {
+				q = rstate{op.HSlot / in.SPE, op.PrevRoot, op.CurRoot}
+				// from now on the rest of the world answers from the views of this event; the duties
+				// requests of the re-subscriptions wait until the driver lets them go on
+				flush()
+				e.views = map[uint64]*View{}
+				for i := range op.Install {
+					v := &op.Install[i]
+					e.views[v.Epoch] = v
+					if v.Unprepared {
+						name := fmt.Sprintf("Prepare for epoch %d", v.Epoch)
+						if err := sched.ScheduleJob(ctx, "Epoch", name, ct.StartOfSlot(phase0.Slot(v.Epoch*in.SPE)), func(context.Context) {}); err == nil {
+							markers = append(markers, name)
+						}
+					}
+				}
+			}
+			if op.HSlot == op.Cur {
+				rs = q
+			}
 			ctrl.HandleHeadEvent(&apiv1.Event{Topic: "head", Data: &apiv1.HeadEvent{
 				Slot: phase0.Slot(op.HSlot), Block: blockRoot(0xB10C0000 + op.HSlot), State: blockRoot(0x57A7E),
+				PreviousDutyDependentRoot: depRoot(q.prev), CurrentDutyDependentRoot: depRoot(q.cur),
 			}})
 			synctest.Wait()
 			o := Obs{Kind: "head", Infos: []ObsInfo{}, Len: uint64(ctrl.VerifSubscriptionInfosLen())}
+			if op.Rooted {
+				// re-subscriptions nobody expected (or missing... those show as empty subscribes): made
+				// visible to the correspondence test, the property does not speak of them
+				want := map[uint64]int{}
+				for _, ep := range op.Expect {
+					want[ep]++
+				}
+				extra := uint64(0)
+				for _, p := range e.parked {
+					if want[p.epoch] > 0 {
+						want[p.epoch]--
+					} else {
+						extra++
+					}
+				}
+				if extra > 0 {
+					o.Len = sentinel + extra
+				}
+			}
 			for _, ep := range subEpochs {
 				if info, exists := ctrl.SubscriptionInfoC14(phase0.Epoch(ep)); exists {
 					o.Infos = append(o.Infos, ObsInfo{Epoch: ep, Stored: storedOf(info)})
@@ -648,9 +985,13 @@ func runCase(t *testing.T, in Input) (obs []Obs) {
 			t.Fatalf("unknown op kind %q", op.Kind)
 		}
 	}
-	for _, op := range in.Ops {
+	for _, op := range tops {
+		if !op.Parked && !(op.Kind == "head" && op.Rooted) {
+			flush()
+		}
 		runOp(op)
 	}
+	flush()
 	return obs
 }
 
@@ -727,15 +1068,34 @@ func term(id uint64, in Input, obs []Obs) string {
 	// for its outside call; Check.C14 puts them in the order in which they take effect ([linearise])
 	ops := make([]string, 0, len(in.Ops))
 	for _, op := range in.Ops {
+		if op.Kind == "head" && op.Rooted {
+			// a head event with duty dependent roots of its own and the answers of the rest of the
+			// world afterwards: Model.C14_Reorg.expand decides what it launches
+			vs := make([]string, len(op.Views))
+			for i, v := range op.Views {
+				ds := make([]string, len(v.Duties))
+				for k, d := range v.Duties {
+					ds[k] = dutyTerm(d)
+				}
+				mids := []string{}
+				for _, m := range linear(v.Mid) {
+					mids = append(mids, opTerm(m))
+				}
+				vs[i] = App("mkView", N(v.Epoch), Bool(v.Unprepared), Bool(v.AcctFail), Bool(v.NoAccounts), Bool(v.DutiesFail),
+					nlist(v.SignFail), List(ds), List(mids))
+			}
+			ops = append(ops, App("EHead", N(op.HSlot), N(op.Cur), N(op.PrevRoot), N(op.CurRoot), List(vs)))
+			continue
+		}
 		if len(op.Mid) == 0 {
-			ops = append(ops, App("HOp", opTerm(op)))
+			ops = append(ops, App("EOp", App("HOp", opTerm(op))))
 			continue
 		}
 		mids := []string{}
 		for _, m := range linear(op.Mid) {
 			mids = append(mids, opTerm(m))
 		}
-		ops = append(ops, App("HDuring", List(mids), opTerm(op)))
+		ops = append(ops, App("EOp", App("HDuring", List(mids), opTerm(op))))
 	}
 	subTerm := func(s ObsSub) string {
 		return App("mkSub", N(s.Val), N(s.Slot), N(s.Comm), N(s.Len), N(s.Cas), N(s.Pos), Bool(s.Agg), N(s.Sig))
@@ -786,7 +1146,7 @@ func term(id uint64, in Input, obs []Obs) string {
 		}
 	}
 	pr := App("mkParams", N(slotMs), N(in.DelayMs), N(in.SPE), N(in.Target))
-	return Record("c_id", N(id), "c_pr", pr, "c_ops", App("linearise", List(ops)), "c_obs", List(os))
+	return Record("c_id", N(id), "c_pr", pr, "c_ops", App("expand", pr, "rinit", List(ops)), "c_obs", List(os))
 }
 
 // ---------------------------------------------------------------------------------------------
@@ -800,7 +1160,8 @@ type shape struct {
 }
 
 func analyse(in Input) shape {
-	sh := shape{tags: map[string]bool{}}
+	tops, rtags := desugar(in)
+	sh := shape{tags: rtags}
 	latest := map[uint64]*Op{}
 	headSince := map[uint64]bool{} // epoch -> an effective head event arrived since its latest subscribe
 	// selectedOf: the attested committees of [att] that hold a selected validator according to [sub]
@@ -829,8 +1190,8 @@ func analyse(in Input) shape {
 		during *Op
 	}
 	var seq []placed
-	for i := range in.Ops {
-		top := &in.Ops[i]
+	for i := range tops {
+		top := &tops[i]
 		mids := linear(top.Mid)
 		for k := range mids {
 			seq = append(seq, placed{&mids[k], top})
@@ -888,6 +1249,18 @@ func analyse(in Input) shape {
 				if lo < d.Slot && d.Slot <= hi {
 					sh.tags["duty-becomes-current-during-subscribe"] = true
 				}
+			}
+		}
+		if op.Kind == "att" && pl.during != nil && pl.during.Parked && pl.during.Epoch == op.DSlot/in.SPE && !op.AttestFail {
+			if old := latest[op.DSlot/in.SPE]; old != nil && len(selectedOf(old, op, op.Cur)) > 0 {
+				sh.tags["job-from-info-held-while-refresh-in-flight"] = true
+			}
+		}
+		if op.Kind == "sub" && op.Parked {
+			if _, held := latest[op.Epoch]; held {
+				sh.tags["refresh-replaces-held-info"] = true
+			} else {
+				sh.tags["refresh-of-epoch-without-info"] = true
 			}
 		}
 		if op.Kind == "att" && pl.during != nil && pl.during.Kind == "sub" && pl.during.Epoch == op.DSlot/in.SPE {
@@ -1325,6 +1698,186 @@ func genHead(r *Rand, in *Input, epoch uint64, att *Op) Op {
 	return op
 }
 
+// genReorg makes a history through the reorganisation path: an epoch (and usually the next one) is
+// subscribed, a head event records the duty dependent roots, and a later head event of the current
+// slot carries different ones -- the current root (the next epoch's attester duties changed), the
+// previous root (this epoch's), both, neither, or the roots of a new epoch that do not continue the
+// old ones -- with the beacon node answering with new duties for the refreshed epochs.  While a
+// re-subscription waits for the duties, attestations of the epoch (made from the duties known so
+// far) complete; afterwards the epochs are attested from what is known then.
+func genReorg(r *Rand, trace bool) Input {
+	in := Input{SPE: 8, Target: 16, DelayMs: 8000, Concurrency: int64(r.Range(1, 4)), Trace: trace}
+	switch r.Intn(6) {
+	case 0:
+		in.SPE = 4
+	case 1:
+		in.SPE = 32
+	}
+	if r.Chance(1, 8) {
+		in.Target = uint64(r.Range(1, 5))
+	}
+	spe := in.SPE
+	epoch := uint64(r.Range(1, 40))
+	switch k := r.Intn(20); {
+	case k < 1:
+		epoch = 0 // lastBlockEpoch stays 0 during epoch 0: nothing is compared
+	case k < 4:
+		epoch = 1
+	}
+	first := epoch * spe
+	rootSeq := uint64(r.Range(1, 1000)) * 100
+	var subs []Op
+	replace := func(op Op) {
+		op.Mid = nil
+		kept := subs[:0:0]
+		for _, s := range subs {
+			if s.Epoch != op.Epoch {
+				kept = append(kept, s)
+			}
+		}
+		subs = append(kept, op)
+	}
+	find := func(ep uint64) *Op {
+		for i := range subs {
+			if subs[i].Epoch == ep {
+				return &subs[i]
+			}
+		}
+		return nil
+	}
+	// the epoch itself and, usually, the next one have been prepared
+	for _, ep := range []uint64{epoch, epoch + 1} {
+		if ep == epoch+1 && r.Chance(1, 6) {
+			continue
+		}
+		s := genSub(r, &in, ep)
+		s.DutiesFail, s.NoAccounts = false, false
+		if ep == epoch+1 { // prepared during the epoch before
+			s.Cur = first + uint64(r.Intn(int(spe)))
+		}
+		in.Ops = append(in.Ops, s)
+		replace(s)
+	}
+	// the slot of the second head event: where an attestation of this epoch is due
+	var pending *Op
+	s2 := first + uint64(r.Intn(int(spe)))
+	if old := find(epoch); old != nil && len(old.Duties) > 0 {
+		a := genAtt(r, &in, []Op{*old}, &rootSeq)
+		if a.Cur/spe == epoch {
+			s2 = a.Cur
+			pending = &a
+		}
+	}
+	s1 := first + uint64(r.Intn(int(s2-first)+1))
+	p0, c0 := uint64(r.Range(1, 1000)), uint64(r.Range(1001, 2000))
+	if r.Chance(1, 12) {
+		p0 = 0 // a node that does not send the root: nothing to compare with later
+	}
+	if r.Chance(1, 12) {
+		c0 = 0
+	}
+	in.Ops = append(in.Ops, Op{Kind: "head", Cur: s1, HSlot: s1, Rooted: true, PrevRoot: p0, CurRoot: c0})
+	if r.Chance(1, 4) { // the chain goes on quietly for a while
+		h := genHead(r, &in, epoch, nil)
+		h.Cur = s1 + uint64(r.Intn(int(s2-s1)+1))
+		h.HSlot = h.Cur
+		in.Ops = append(in.Ops, h)
+	}
+	h := Op{Kind: "head", Cur: s2, HSlot: s2, Rooted: true, PrevRoot: p0, CurRoot: c0}
+	var refreshed []uint64
+	switch k := r.Intn(20); {
+	case k < 8: // the next epoch's duties changed
+		h.CurRoot = uint64(r.Range(2001, 3000))
+		refreshed = []uint64{epoch + 1}
+	case k < 13: // this epoch's duties changed
+		h.PrevRoot = uint64(r.Range(3001, 4000))
+		refreshed = []uint64{epoch}
+	case k < 16: // both
+		h.PrevRoot, h.CurRoot = uint64(r.Range(3001, 4000)), uint64(r.Range(2001, 3000))
+		refreshed = []uint64{epoch, epoch + 1}
+	case k < 17: // the same roots again
+	case k < 18: // a root that was not sent before arrives now
+		h.PrevRoot, h.CurRoot = uint64(r.Range(3001, 4000)), uint64(r.Range(2001, 3000))
+		if p0 != 0 && c0 != 0 {
+			h.PrevRoot = 0
+		}
+		refreshed = []uint64{epoch, epoch + 1}
+	default: // the first head of the next epoch
+		s2 = first + spe + uint64(r.Intn(int(spe)))
+		h.Cur, h.HSlot = s2, s2
+		pending = nil
+		h.PrevRoot, h.CurRoot = c0, uint64(r.Range(4001, 5000))
+		switch r.Intn(3) {
+		case 0:
+			h.PrevRoot = uint64(r.Range(3001, 4000)) // does not continue the old current root
+		case 1:
+			h.PrevRoot = p0 // the old previous root again: does not continue the old current root either
+		}
+		refreshed = []uint64{epoch + 1, epoch + 2}
+	}
+	if r.Chance(1, 15) { // a late block: not the head of the current slot, ignored whatever it carries
+		h.Cur = h.HSlot + 1
+	}
+	// the answers after the reorganisation: for the epochs that may be refreshed, sometimes for a
+	// neighbour too
+	if r.Chance(1, 4) {
+		refreshed = append(refreshed, h.Cur/spe, h.Cur/spe+1)
+	}
+	seen := map[uint64]bool{}
+	for _, ep := range refreshed {
+		if seen[ep] || r.Chance(1, 20) {
+			continue
+		}
+		seen[ep] = true
+		s := genSub(r, &in, ep)
+		v := View{Epoch: ep, NoAccounts: s.NoAccounts, DutiesFail: s.DutiesFail, SignFail: s.SignFail, Duties: s.Duties}
+		if r.Chance(1, 15) {
+			v.Unprepared = true
+		}
+		if r.Chance(1, 20) {
+			v.AcctFail = true
+		}
+		// what completes while the re-subscription waits for the node
+		if old := find(ep); old != nil && r.Chance(3, 5) {
+			var a Op
+			if ep == h.Cur/spe && pending != nil && r.Chance(3, 4) {
+				a = *pending // the attestation due in the slot of the head event
+			} else {
+				a = genAtt(r, &in, []Op{*old}, &rootSeq)
+				if r.Chance(2, 3) {
+					a.Cur = h.Cur
+				}
+			}
+			switch r.Intn(6) {
+			case 0:
+				v.Mid = append(v.Mid, genHead(r, &in, epoch, &a), a)
+			case 1:
+				v.Mid = append(v.Mid, a, genHead(r, &in, epoch, &a))
+			default:
+				v.Mid = append(v.Mid, a)
+			}
+		}
+		h.Views = append(h.Views, v)
+	}
+	in.Ops = append(in.Ops, h)
+	// the driver's plan tells which views took effect
+	plan, _ := desugar(in)
+	for _, op := range plan {
+		if op.Parked && !op.DutiesFail {
+			replace(op)
+		}
+	}
+	// afterwards: the epochs are attested from what is known now
+	for n := r.Range(1, 3); n > 0 && len(subs) > 0; n-- {
+		a := genAtt(r, &in, subs, &rootSeq)
+		if r.Chance(1, 3) {
+			in.Ops = append(in.Ops, genHead(r, &in, epoch, &a))
+		}
+		in.Ops = append(in.Ops, a)
+	}
+	return in
+}
+
 func gen(r *Rand, trace bool) Input {
 	in := Input{SPE: 8, Target: 16, DelayMs: 8000, Concurrency: int64(r.Range(1, 4)), Trace: trace}
 	switch r.Intn(6) {
@@ -1465,7 +2018,8 @@ func TestC14(t *testing.T) {
 	deadlock.Opts.Disable = true
 	zerologger.Logger = zerolog.New(io.Discard)
 	col := NewCollector("C14", "Check.C14",
-		"histories of 2-10 operations (subscribe an epoch at a current slot; attest a slot; head event; some of them "+
+		"histories of 2-10 operations (subscribe an epoch at a current slot; attest a slot; head event, 1 history in 5 with "+
+			"head events whose duty dependent roots change and the re-subscriptions they launch; some of them "+
 			"completing while an attest is waiting for attester.Attest or a subscribe for the duties) over 0-10 validators; "+
 			"non-trivial = a subscribe with at least one duty after the current slot, or an attest with at least one "+
 			"attested committee holding a selected aggregator, or a head event while subscription information is held; "+
@@ -1481,7 +2035,11 @@ func TestC14(t *testing.T) {
 	traceTier := os.Getenv("VERIF_TIER") == "thorough"
 	for i := 0; i < n; i++ {
 		r := rng.Fork()
-		ins = append(ins, gen(r, traceTier && i%2 == 1))
+		if r.Chance(1, 5) {
+			ins = append(ins, genReorg(r, traceTier && i%2 == 1))
+		} else {
+			ins = append(ins, gen(r, traceTier && i%2 == 1))
+		}
 	}
 	for _, in := range ins {
 		if in.SPE == 0 || in.Target == 0 {
@@ -1495,7 +2053,8 @@ func TestC14(t *testing.T) {
 			tags = append(tags, tg)
 		}
 		sort.Strings(tags)
-		for _, op := range linear(in.Ops) {
+		plan, _ := desugar(in)
+		for _, op := range linear(plan) {
 			col.Count("op:" + op.Kind)
 			switch op.Kind {
 			case "sub":
